@@ -13,6 +13,7 @@ let families : (string * (string list -> string)) list = [
   "db", Fam_storage.run_db;
   "crash", Fam_storage.run_crash;
   "sess", Fam_sess.run;
+  "plain", Fam_plain.run;
 ]
 
 let () =
